@@ -67,6 +67,8 @@ TDecOK(ev) ==
                   /\ ev.readlen = r.hlen                           \* = the number of bytes the decoder consumed
                   /\ ev.isth /\ (ev.isstreaming = ((r.param.flags \div 2) % 2 = 1))
        /\ ~r.ok => ~ev.ok
+       \* on a live connection the header has arrived and the payload has not: the decoder asks for the header only
+       /\ ("over" \in DOMAIN ev /\ r.ok) => ~ev.over
 
 \* ---- a stream of framed messages: header + payload (message envelope + struct), back to back --------------
 \* "the decoded payload length equals total + 4 - header length, so any payload is delimited exactly"
